@@ -128,9 +128,25 @@ def cvc_conf(c):
     return L
 
 
+def files_dir():
+    d = os.path.join(V.BUILD, "scratch", "C01-files")
+    os.makedirs(d, exist_ok=True)
+    return d
+
+
+def write_files(case):
+    """reference files named by a raw configuration (path files, XYZ reference frames): @FILES@/<name> in the text"""
+    for name, content in (case.get("files") or {}).items():
+        pth = os.path.join(files_dir(), name)
+        if not os.path.exists(pth) or open(pth).read() != content:
+            with open(pth + ".tmp%d" % os.getpid(), "w") as f:
+                f.write(content)
+            os.replace(pth + ".tmp%d" % os.getpid(), pth)
+
+
 def config_text(case):
     if "raw_config" in case:
-        return case["raw_config"]
+        return case["raw_config"].replace("@FILES@", files_dir())
     L = []
     for i, v in enumerate(case["vars"]):
         L += ["colvar {", "  name v%d" % i, "  width %r" % v["width"]]
@@ -165,6 +181,16 @@ def config_text(case):
             if b["hu"]:
                 L.append("  upperWalls " + " ".join("%r" % t[2] for t in b["terms"]))
                 L.append("  upperWallConstant %r" % b["uwk"])
+        mv_ = b.get("moving")
+        if mv_:
+            # moving restraint (continuous update): centres and/or force constant are functions of the step number
+            L.append("  targetNumSteps %d" % mv_["N"])
+            if mv_.get("tc") is not None:
+                L.append("  targetCenters " + " ".join(("%r" % c) if not isinstance(c, (tuple, list)) else "(" + ", ".join("%r" % x for x in c) + ")" for c in mv_["tc"]))
+            if mv_.get("tk") is not None:
+                L.append("  targetForceConstant %r" % mv_["tk"])
+                if mv_.get("kexp", 1.0) != 1.0:
+                    L.append("  lambdaExponent %r" % mv_["kexp"])
         L.append("}")
     return "\n".join(L)
 
@@ -208,7 +234,7 @@ def n_event_steps(case):
     """steps run before the base step because of the history: one warm-up step (the components are in use when they are
     modified) and one step after every script call"""
     n = len(event_lines(case))
-    return n + 1 if n else 0
+    return n + 1 if (n or case.get("fd_setstep") is not None) else 0
 
 
 def npre_steps(case):
@@ -222,6 +248,7 @@ def fd_coords(case):
 
 def scenario(case, tag, with_fd=True):
     """vsim commands for one case: base step + finite-difference steps"""
+    write_files(case)
     at = case["atoms"]
     L = ["echo CASE %s" % tag, "natoms %d" % len(at)]
     for i, (m, q, p) in enumerate(at):
@@ -240,7 +267,9 @@ def scenario(case, tag, with_fd=True):
     if case.get("setstep") is not None:
         L.append("setstep %d" % case["setstep"])
     ev = event_lines(case)
-    if ev:
+    if ev or case.get("fd_setstep") is not None:
+        # (with fd_setstep: the first step of a session does not advance the step counter, every later one does; after this
+        # warm-up step every measured step runs at step number fd_setstep + 1)
         L += ["show cv 0 bias 0 atomf 0", "step"]
         for ln in ev:
             L += [ln, "step"]
@@ -251,13 +280,16 @@ def scenario(case, tag, with_fd=True):
         L.append("step")
         for i, (m, q, p) in enumerate(at):
             L.append("pos %d %s %s %s" % (i + 1, hx(p[0]), hx(p[1]), hx(p[2])))
-    L += ["show cv 1 bias 1 atomf 1", "step", "show cv 1 bias 0 atomf 0"]
+    # moving restraints: every measured step is run at the same step number, where centres / force constant are frozen
+    fs = ["setstep %d" % case["fd_setstep"]] if case.get("fd_setstep") is not None else []
+    L += ["show cv 1 bias 1 atomf 1 af 1"] + fs + ["step", "show cv 1 bias 0 atomf 0 af 0"]
     if with_fd:
         for (a, k) in fd_coords(case):
             p = list(at[a][2])
             for h in (H1, -H1, H2, -H2):
                 q = list(p); q[k] = p[k] + h
                 L.append("pos %d %s %s %s" % (a + 1, hx(q[0]), hx(q[1]), hx(q[2])))
+                L += fs
                 L.append("step")
             L.append("pos %d %s %s %s" % (a + 1, hx(p[0]), hx(p[1]), hx(p[2])))
         if case.get("presteps"):
@@ -403,14 +435,27 @@ def model_line(case, res=None):
             ref = abmd_ref(b, [p["v%d" % i][0] for p in pre])
             t += ["abmd", hx(b["k"]), "1" if b["dec"] else "0", str(vmap[i][0]), hx(ref)]
             continue
+        lam = None
+        keff = lambda k0: k0
+        if b.get("moving"):
+            # colvarbias_restraint_centers_moving / k_moving::update, continuous: lambda = (step - first_step) / targetNumSteps
+            lam = (case["fd_setstep"] + 1) / float(b["moving"]["N"])
+            if b["moving"].get("tk") is not None:
+                keff = lambda k0: k0 + (b["moving"]["tk"] - k0) * lam ** b["moving"].get("kexp", 1.0)
         if b["type"] in ("harmonic", "linear"):
             terms = []
-            for (i, c) in b["terms"]:
+            for ti, (i, c) in enumerate(b["terms"]):
+                if lam is not None and b["moving"].get("tc") is not None:
+                    c1 = b["moving"]["tc"][ti]
+                    if isinstance(c, (tuple, list)):
+                        c = tuple((1.0 - lam) * x0 + lam * x1 for x0, x1 in zip(c, c1))
+                    else:
+                        c = (1.0 - lam) * c + lam * c1
                 if isinstance(c, (tuple, list)):
                     terms += [(j, cj) for j, cj in zip(vmap[i], c)]
                 else:
                     terms.append((vmap[i][0], c))
-            t += [b["type"], hx(b["k"]), str(len(terms))]
+            t += [b["type"], hx(keff(b["k"])), str(len(terms))]
             for (i, c) in terms:
                 t += [str(i), hx(c)]
         else:
@@ -422,7 +467,7 @@ def model_line(case, res=None):
                 k = b["uwk"]; lk = 1.0; uk = 1.0
             else:
                 k = b["lwk"]; lk = 1.0; uk = 1.0
-            t += ["walls", hx(k), hx(lk), hx(uk), "1" if hl else "0", "1" if hu else "0", str(len(b["terms"]))]
+            t += ["walls", hx(keff(k)), hx(lk), hx(uk), "1" if hl else "0", "1" if hu else "0", str(len(b["terms"]))]
             for (i, lo, up) in b["terms"]:
                 t += [str(vmap[i][0]), hx(lo), hx(up)]
     # history of run-time modifications (component indices in configuration order, as in the model's lists)
@@ -904,6 +949,27 @@ def gen_case(r, kinds, opts):
         case["biases"][r.randrange(len(case["biases"]))] = b
     if opts.get("events") and r.random() < opts["events"]:
         add_history(r, case, n_atoms, opts)
+    if opts.get("moving") and r.random() < opts["moving"] and not case.get("presteps"):
+        # moving restraints, evaluated at a fixed step number S <= targetNumSteps (dyadic lambda = S/N)
+        N = r.choice([1024, 512])
+        for b in case["biases"]:
+            if b["type"] not in ("harmonic", "linear", "walls"):
+                continue
+            mv_ = {"N": N}
+            m = r.random()
+            plain_vars = not any(var_period(case["vars"][t[0]]) for t in b["terms"])
+            if b["type"] != "walls" and plain_vars and m < 0.5:
+                def shift(c):
+                    if isinstance(c, (tuple, list)):
+                        return tuple(x + V.dyadic(r, -1, 1, bits=3) for x in c)
+                    return c + V.dyadic(r, -2, 2, bits=3)
+                mv_["tc"] = [shift(t[1]) for t in b["terms"]]
+            if "tc" not in mv_:        # (moving centres and a changing force constant exclude each other)
+                mv_["tk"] = r.choice([4.0, 0.25, 8.0, 1.5])
+                mv_["kexp"] = r.choice([1.0, 1.0, 2.0, 4.0])
+            b["moving"] = mv_
+            if "fd_setstep" not in case:
+                case["fd_setstep"] = r.choice([N // 4, N // 2, 3 * N // 4, N]) - 1      # lambda = (S + 1)/N is dyadic
     return case
 
 
@@ -1051,6 +1117,11 @@ def parse_vsim(out, ncases):
                 cur["steps"][-1]["cv"][w[1]] = [float.fromhex(t) for t in w[2:]]
             except ValueError:
                 cur["steps"][-1]["cv"][w[1]] = None
+        elif w[0] == "AF" and cur["steps"]:
+            try:
+                cur["steps"][-1].setdefault("af", {})[w[1]] = [float.fromhex(t) for t in w[2:]]
+            except ValueError:
+                cur["steps"][-1].setdefault("af", {})[w[1]] = None
         elif w[0] == "BIAS" and cur["steps"]:
             cur["steps"][-1]["bias"][w[1]] = float.fromhex(w[2])
         elif w[0] == "ATOMF" and cur["steps"]:
@@ -1248,7 +1319,8 @@ def gen_unmodelled(r, n):
                   "center_distancePairs", "rot_distancePairs", "distancePairs_linear",
                   "center1_distanceVec", "center1_fit_distanceDir", "center1_distancePairs",
                   "rmsd_perm", "lincomb_coordNum", "lincomb_selfCoordNum", "distanceZ2_period",
-                  "ev_forceNoPBC", "ev_period", "ev_distanceVec_coeff", "ev_rmsd_exp", "ev_dihedral_coeff", "ev_distancePairs_coeff"]
+                  "ev_forceNoPBC", "ev_period", "ev_distanceVec_coeff", "ev_rmsd_exp", "ev_dihedral_coeff", "ev_distancePairs_coeff",
+                  "gspathCV", "gzpathCV", "aspathCV", "azpathCV", "gspath", "gzpath", "aspath", "azpath", "scripted_vsum", "lincomb_distanceVec"]
     names = names + cell_names
     only = os.environ.get("C01_ONLY")          # debugging aid: restrict the sweep to kinds containing this text
     if only:
@@ -1268,6 +1340,7 @@ def gen_unmodelled(r, n):
         cell = None
         pre = None
         script = None
+        files = None
         touched = sorted(set(ids + oth2))
         fitopts = "centerToReference on\n      rotateToReference on\n      refPositions %s" % refpos_str(r, 4)
         if name == "rot_distance":
@@ -1430,6 +1503,88 @@ def gen_unmodelled(r, n):
                 conf = ("colvar {\n  name v0\n  dihedral {\n    group1 {\n      atomNumbers %d\n    }\n    group2 {\n      atomNumbers %d\n    }\n    group3 {\n      atomNumbers %d\n    }\n    group4 {\n      atomNumbers %d\n    }\n  }\n}\n"
                         "harmonic {\n  colvars v0\n  centers 150.0\n  forceConstant 0.001\n}\nharmonicWalls {\n  colvars v0\n  lowerWalls -170.0\n  upperWalls 170.0\n  lowerWallConstant 0.01\n  upperWallConstant 0.02\n}" % tuple(i + 1 for i in ids))
                 script = ['scriptu cv|colvar|v0|modifycvcs|"componentCoeff %r"' % r.choice([2.0, 0.5, -1.5])] + (['scriptu cv|colvar|v0|modifycvcs|"componentExp 2"'] if r.random() < 0.4 else [])
+        elif name in ("gspathCV", "gzpathCV", "aspathCV", "azpathCV"):
+            # path variables in the space of other components (distance, distanceZ; coordNum computes its gradients only
+            # with f_cvc_gradient, see fix-C01-4): reference values from a path file
+            touched = sorted(set(ids[:3] + oth2))
+            third = r.random() < 0.4
+            subs = ("    distance {\n      name d1\n      group1 {\n        atomNumbers %s\n      }\n      group2 {\n        atomNumbers %s\n      }\n    }\n"
+                    "    distanceZ {\n      name d2\n      main {\n        atomNumbers %d\n      }\n      ref {\n        atomNumbers %s\n      }\n      axis (0.6, 0.0, 0.8)\n    }\n"
+                    % (ids_str(ids[:2]), ids_str(oth2), ids[2] + 1, ids_str(oth2)))
+            if third:
+                subs += ("    coordNum {\n      name d3\n      group1 {\n        atomNumbers %s\n      }\n      group2 {\n        atomNumbers %s\n      }\n      cutoff 4.0\n    }\n"
+                         % (ids_str(ids[:2]), ids_str(oth2)))
+            vecsub = r.random() < 0.35
+            if vecsub:
+                # a vector-valued sub-component has no explicit atomic gradients: the path variable then hands each
+                # sub-component its share of the force through apply_force() instead of scaling stored gradients
+                third = False
+                subs = ("    distanceVec {\n      name d1\n      group1 {\n        atomNumbers %s\n      }\n      group2 {\n        atomNumbers %s\n      }\n    }\n"
+                        "    distance {\n      name d2\n      group1 {\n        atomNumbers %d\n      }\n      group2 {\n        atomNumbers %s\n      }\n    }\n"
+                        % (ids_str(ids[:2]), ids_str(oth2), ids[2] + 1, ids_str(oth2)))
+            nfr = r.choice([3, 4, 5])
+            rows = []
+            for fr in range(nfr):
+                if vecsub:
+                    row = [-3.0 + 1.5 * fr + V.dyadic(r, -0.5, 0.5, bits=3), -2.0 + 1.25 * fr + V.dyadic(r, -0.5, 0.5, bits=3),
+                           3.0 - 1.5 * fr + V.dyadic(r, -0.5, 0.5, bits=3), 1.0 + 1.75 * fr + V.dyadic(r, -0.5, 0.5, bits=3)]
+                else:
+                    row = [1.0 + 1.75 * fr + V.dyadic(r, -0.5, 0.5, bits=3), -3.0 + 1.5 * fr + V.dyadic(r, -0.5, 0.5, bits=3)]
+                if third:
+                    row.append(0.25 + 0.5 * fr)
+                rows.append(" ".join("%r" % x for x in row))
+            fname = "path_%s_%d.txt" % (name, i)
+            files = {fname: "\n".join(rows) + "\n"}
+            extra = ""
+            if name in ("gspathCV", "gzpathCV"):
+                extra = "    useSecondClosestFrame %s\n    useThirdClosestFrame %s\n" % (("on", "off") if r.random() < 0.6 else ("off", "on"))
+                if name == "gzpathCV" and r.random() < 0.5:
+                    extra += "    useZsquare on\n"
+            else:
+                extra = "    lambda %r\n" % r.choice([0.5, 1.0, 0.25])
+                if r.random() < 0.5:
+                    extra += "    weights %s\n" % " ".join("%r" % r.choice([1.0, 0.5, 2.0]) for _ in range(3 if third else 2))
+            cen = {"gspathCV": 0.4, "gzpathCV": 1.0, "aspathCV": 0.5, "azpathCV": 2.0}[name]
+            conf = ("colvar {\n  name v0\n  %s {\n%s    pathFile @FILES@/%s\n%s  }\n}\nharmonic {\n  colvars v0\n  centers %r\n  forceConstant %r\n}"
+                    % (name, subs, fname, extra, cen, r.choice([2.0, 10.0, 1.0])))
+        elif name in ("gspath", "gzpath", "aspath", "azpath"):
+            # path variables in Cartesian space: reference frames from XYZ files, each frame fitted by its own copy of the group
+            ids = sorted(ids)
+            touched = list(ids)
+            nfr = r.choice([3, 4])
+            frame0 = [[V.dyadic(r, -3, 3, bits=3) for _ in range(3)] for _ in ids]
+            drift = [[V.dyadic(r, -1, 1, bits=3) for _ in range(3)] for _ in ids]
+            files = {}
+            reflines = ""
+            for fr in range(nfr):
+                fname = "frame_%s_%d_%d.xyz" % (name, i, fr)
+                L_ = ["%d" % len(ids), "frame %d" % fr]
+                for p0, dv in zip(frame0, drift):
+                    L_.append("X " + " ".join("%r" % (a_ + fr * b_ + V.dyadic(r, -0.25, 0.25, bits=3)) for a_, b_ in zip(p0, dv)))
+                files[fname] = "\n".join(L_) + "\n"
+                reflines += "    refPositionsFile%d @FILES@/%s\n" % (fr + 1, fname)
+            extra = ""
+            if name in ("gspath", "gzpath"):
+                extra = "    useSecondClosestFrame %s\n    useThirdClosestFrame %s\n" % (("on", "off") if r.random() < 0.6 else ("off", "on"))
+                if name == "gzpath" and r.random() < 0.5:
+                    extra += "    useZsquare on\n"
+            else:
+                extra = "    lambda %r\n" % r.choice([0.5, 1.0, 0.25])
+            cen = {"gspath": 0.4, "gzpath": 1.0, "aspath": 0.5, "azpath": 2.0}[name]
+            conf = ("colvar {\n  name v0\n  %s {\n    atoms {\n      atomNumbers %s\n    }\n%s%s  }\n}\nharmonic {\n  colvars v0\n  centers %r\n  forceConstant %r\n}"
+                    % (name, ids_str(ids), reflines, extra, cen, r.choice([2.0, 10.0, 1.0])))
+        elif name == "lincomb_distanceVec":
+            # vector-valued linear combination: the sub-components get their forces through apply_force()
+            touched = sorted(set(ids + oth2))
+            conf = ("colvar {\n  name v0\n  linearCombination {\n    distanceVec {\n      name a\n      componentCoeff 2.0\n      group1 {\n        atomNumbers %s\n      }\n      group2 {\n        atomNumbers %s\n      }\n    }\n"
+                    "    distanceVec {\n      name b\n      componentCoeff -0.5\n      group1 {\n        atomNumbers %s\n      }\n      group2 {\n        atomNumbers %s\n      }\n    }\n  }\n}\n"
+                    "harmonic {\n  colvars v0\n  centers (1.0, 0.5, -0.5)\n  forceConstant 2.0\n}" % (ids_str(ids[:2]), ids_str(oth2), ids_str(ids[2:]), ids_str(oth2[:1])))
+        elif name == "scripted_vsum":
+            # scriptedFunction through the engine's callback (vsim: vsum = sum of the component values, gradient 1)
+            touched = sorted(set(ids[:3] + oth2))
+            conf = ("colvar {\n  name v0\n  scriptedFunction vsum\n  distance {\n    componentCoeff 3.0\n    group1 {\n      atomNumbers %s\n    }\n    group2 {\n      atomNumbers %s\n    }\n  }\n"
+                    "  distanceZ {\n    main {\n      atomNumbers %d\n    }\n    ref {\n      atomNumbers %s\n    }\n    axis (0.6, 0.0, 0.8)\n  }\n}\n%s"
+                    % (ids_str(ids[:2]), ids_str(oth2), ids[2] + 1, ids_str(oth2), harm))
         elif name == "dihedral_walls":
             touched = sorted(ids)
             conf = ("colvar {\n  name v0\n  dihedral {\n    group1 {\n      atomNumbers %d\n    }\n    group2 {\n      atomNumbers %d\n    }\n    group3 {\n      atomNumbers %d\n    }\n    group4 {\n      atomNumbers %d\n    }\n  }\n}\n"
@@ -1444,6 +1599,8 @@ def gen_unmodelled(r, n):
         c = raw_case(r, full_name, na, conf, touched, cell=cell)
         if script:
             c["script"] = script
+        if files:
+            c["files"] = files
         if wrap:
             # a periodic cell in which some of the named atoms sit in other images: centre / pair differences wrap
             c["cell"] = tuple(r.choice([8.0, 10.0, 12.0]) for _ in range(3))
@@ -1535,8 +1692,9 @@ def compare_case(run, case, res, mline, mout):
         run.mismatch(comp, {"line": mline}, base.get("energy"), mout)
         return False
     try:
-        iv = w.index("V"); jf = w.index("F")
-        me = float.fromhex(w[1]); msc = float.fromhex(w[3]); mv = [float.fromhex(t) for t in w[iv + 1:jf]]; mf = [float.fromhex(t) for t in w[jf + 1:]]
+        ia = w.index("A"); iv = w.index("V"); jf = w.index("F")
+        me = float.fromhex(w[1]); msc = float.fromhex(w[3]); ma = [float.fromhex(t) for t in w[ia + 1:iv]]
+        mv = [float.fromhex(t) for t in w[iv + 1:jf]]; mf = [float.fromhex(t) for t in w[jf + 1:]]
     except ValueError:
         run.mismatch(comp, {"line": mline}, base.get("energy"), mout)
         return False
@@ -1558,6 +1716,13 @@ def compare_case(run, case, res, mline, mout):
             x = [x[0] - round(d_) * per]
         if not x or len(x) != n or not all(close(a, b, TOL_TIE) for a, b in zip(x, mv[mi:mi + n])):
             bad.append("value v%d impl=%r model=%r" % (i, x, mv[mi:mi + n]))
+        # the force applied to the variable (colvar::applied_force(), what outputAppliedForce writes) = the model's sum of
+        # the biases' forces on it; sums of bias forces may cancel: tolerance relative to the largest element
+        af = (base.get("af") or {}).get("v%d" % i)
+        maf = ma[mi:mi + n]
+        asc = max([1.0] + [abs(t_) for t_ in maf])
+        if not af or len(af) != n or not all(close(a, b, TOL_TIE, asc) for a, b in zip(af, maf)):
+            bad.append("applied force on v%d impl=%r model=%r" % (i, af, maf))
         mi += n
     escale = max(1.0, abs(me))
     if not close(base["energy"], me, TOL_TIE):
@@ -1597,7 +1762,7 @@ def check(run):
     model, exes = st
     vsim = exes["vsim_c01"]
 
-    opts = {"dummy": True, "center": True, "poly": True, "cell": True, "nofitgrad": True, "vec": 0.12, "pairs": 0.08, "hist": 0.2, "histr": 0.1, "events": 0.15, "biases": ["harmonic", "harmonic", "walls", "linear"]}
+    opts = {"dummy": True, "center": True, "poly": True, "cell": True, "nofitgrad": True, "vec": 0.12, "pairs": 0.08, "hist": 0.2, "histr": 0.1, "events": 0.15, "moving": 0.1, "biases": ["harmonic", "harmonic", "walls", "linear"]}
     kinds = T1 + T1 + T2
     ncases = 500 if quick else 40000
     cases = load_corpus()
@@ -1662,6 +1827,9 @@ def check(run):
             run.dist("bias:" + b["type"])
         if history_label(case):
             run.dist(history_label(case))
+        for b in case["biases"]:
+            if b.get("moving"):
+                run.dist("moving:%s:%s" % (b["type"], "centers" if b["moving"].get("tc") is not None else "forceConstant"))
         if res is not None and not res.get("done") and res.get("config") and "err=ok" in res["config"]:
             run.violation("crash:" + signature(case)[3:], "the engine simulator died (rc=%s) on a generated configuration: %s" % (res.get("rc"), res.get("stderr", "")[-200:]),
                           {"kind": "scenario", "scenario": scenario(case, "0")})
@@ -1710,7 +1878,7 @@ def check(run):
     # ---- finite-difference sweep over configurations the model does not cover (a few per kind in the quick tier)
     if True:
         ur = V.rng("C01-unmodelled")
-        ucases = gen_unmodelled(ur, 165 if quick else 6000)
+        ucases = gen_unmodelled(ur, 195 if quick else 6000)
         ures = run_vsim(vsim, ucases)
         for case, res in zip(ucases, ures):
             name = case["name"]
